@@ -1298,7 +1298,8 @@ export class TupleRuntype extends BaseRuntype {
     popPath(ctx);
     return annotateSchema(this.metadata, {
       type: "array",
-      prefixItems,
+      // Draft 2020-12 requires a non-empty prefixItems array
+      ...(prefixItems.length > 0 ? { prefixItems } : {}),
       items,
     } as any);
   }
